@@ -3,15 +3,27 @@
   Each module answers the requests it knows (`none` = not mine).
 -/
 import RosuModel.Model.Cmds.Frame
+import RosuModel.Model.Cmds.Reader
+import RosuModel.Model.Cmds.Writer
 import RosuModel.Model.Cmds.Codec
 import RosuModel.Model.Cmds.Curve
+import RosuModel.Model.Cmds.Timing
+import RosuModel.Model.Cmds.Sections
+import RosuModel.Model.Cmds.HitObj
+import RosuModel.Model.Cmds.Events
 namespace Rosu
 
 def dispatch (toks : List String) : String :=
   ((none : Option String)
     |>.orElse (fun _ => dispatchFrame toks)
+    |>.orElse (fun _ => dispatchReader toks)
+    |>.orElse (fun _ => dispatchWriter toks)
     |>.orElse (fun _ => dispatchCodec toks)
     |>.orElse (fun _ => dispatchCurve toks)
+    |>.orElse (fun _ => dispatchTiming toks)
+    |>.orElse (fun _ => dispatchSections toks)
+    |>.orElse (fun _ => dispatchHitObj toks)
+    |>.orElse (fun _ => dispatchEvents toks)
     ).getD "bad-request"
 
 end Rosu
